@@ -222,6 +222,12 @@ func (vm *VirtualMachine) runCodeInternal(ctx context.Context, codeToRun *compil
 	startIP := 0
 	if !resetState {
 		startIP = vm.ip
+		// The previous run left its result (or, if it failed, its pending
+		// operands) on the stack. The continuation starts with an empty
+		// stack, otherwise every REPL input would use up one more slot.
+		for vm.sp >= 0 {
+			vm.pop()
+		}
 	}
 	vm.activateCode(0, startIP, codeObj)
 
